@@ -290,7 +290,7 @@ class Ctx:
                 seen.add(v['key']); uniq.append(v)
         n_unlisted = len(unlisted)
         unlisted = uniq
-        for i, v in enumerate(unlisted[:10]):
+        for i, v in enumerate(unlisted[:40]):
             path = os.path.join(REPLAY, '%s_%s_%d.json' % (self.pid, self.tier, i))
             with open(path, 'w') as fh:
                 json.dump({'property': self.pid, 'seed': self.seed, 'tier': self.tier, 'key': v['key'], 'what': v['what'],
